@@ -53,6 +53,10 @@ def _kept(grid, k, cfg=0):
     return {'kind': 'kept', 'inp': {'grid': list(grid), 'k': k, 'cfg': cfg}}
 
 
+def _route(seed, nst, nspk, rate):
+    return {'kind': 'route', 'inp': {'seed': seed, 'nst': nst, 'nspk': nspk, 'rate': rate}}
+
+
 def _corpus():
     c = []
     # upstream's example, on a doubled integer scale
@@ -143,6 +147,11 @@ def generate(tier, rng):
                                 n += 1
     for _ in range(1500 if quick else 20000):
         cases.append(_random(rng))
+    # the route through TemplateModel.save_spikes_subset_waveforms on generated datasets (chunks of 6 or 3
+    # samples, so that the recordings have fewer and more than the 20 chunks the method asks for)
+    for _ in range(60 if quick else 600):
+        cases.append(_route(rng.randrange(10 ** 6), rng.choice((1, 1, 2, 3, 50)), rng.choice((3, 8, 20, 40, 60)),
+                            rng.choice((0.01, 0.005))))
     return cases
 
 
@@ -197,9 +206,56 @@ def _selector(i):
     return ss, kept
 
 
+def _run_route(i):
+    import logging
+    import os
+    import random
+    import shutil
+    import tempfile
+    import numpy as np
+    from .. import datasets as D
+    from phylib.io.model import TemplateModel
+    logging.disable(logging.CRITICAL)
+    rng = random.Random(i['seed'])
+    sem = D.gen_semantic(rng, raw=True, rate=i['rate'], curated=False, features=False, template_features=False,
+                         whitening='none', raw_dtype='int16', n_spikes=i['nspk'], similar=False, offset=0)
+    ds = D.render(sem, rng, names='ks')
+    d = tempfile.mkdtemp(prefix='c17_', dir=os.environ.get('VT_WORK') or tempfile.gettempdir())
+    try:
+        m = TemplateModel(**D.materialise(ds, d))
+        samples = [int(x) for x in m.spike_samples]
+        templates = [int(x) for x in m.spike_templates]
+        grid = [int(x) for x in m.traces.chunk_bounds]
+        path = os.path.join(d, '_phy_spikes_subset.spikes.npy')
+        results = []
+        for s in SEEDS[:3]:
+            if os.path.exists(path):
+                os.remove(path)
+            np.random.seed(s)
+            try:
+                m.save_spikes_subset_waveforms(max_n_spikes_per_template=i['nst'])
+            except Exception:
+                # the spike ids are saved before the waveforms are extracted; failures of the extraction
+                # (property C03) are not C17's business, a missing spike file is
+                if not os.path.exists(path):
+                    raise
+            out = np.load(path)
+            if out.ndim != 1 or out.dtype.kind not in 'iu':
+                raise RuntimeError('saved spike ids are not a 1-D integer array: %r %r' % (out.dtype, out.shape))
+            r = [int(x) for x in out]
+            if r not in results:
+                results.append(r)
+        m.close()
+        return ('route', samples, templates, grid, results)
+    finally:
+        shutil.rmtree(d, ignore_errors=True)
+
+
 def run_case(case):
     import numpy as np
     k, i = case['kind'], case['inp']
+    if k == 'route':
+        return _run_route(i)
     ss, kept = _selector(i)
     if k == 'kept':
         return ('kept', kept)
@@ -234,6 +290,15 @@ def encode(case, obs):
         cin = q.app('InSelect', q.zl(i['times']), q.zl(i['clusters']), q.zl(i['grid']), q.z(i['k']),
                     q.opt(i['n']), q.zl(i['req']), q.b(i['sc']), q.opt(i['sub'], q.zl))
         cobs = 'ObsCrash' if crash else q.app('ObsSelect', q.zl(obs[1]), q.zll(obs[2]))
+    elif k == 'route':
+        if crash:
+            # without the loaded arrays the input cannot be stated; a well-formed stand-in makes the crash
+            # count as a failure of the property, not as a regime error
+            cin = q.app('InRoute', '[]', '[]', '[0]', q.z(max(1, i['nst'])))
+            cobs = 'ObsCrash'
+        else:
+            cin = q.app('InRoute', q.zl(obs[1]), q.zl(obs[2]), q.zl(obs[3]), q.z(i['nst']))
+            cobs = q.app('ObsRoute', q.zll(obs[4]))
     else:
         raise ValueError(k)
     return cin, cobs
@@ -244,6 +309,8 @@ def nontrivial(case, obs):
         return False
     if case['kind'] == 'kept':
         return len(case['inp']['grid']) >= 3
+    if case['kind'] == 'route':
+        return any(len(r) > 0 for r in obs[4])
     return any(len(r) > 0 for r in obs[2])
 
 
@@ -253,6 +320,16 @@ def _bucket(n):
 
 def dist(case, obs):
     k, i = case['kind'], case['inp']
+    if k == 'route':
+        out = ['kind=route', 'route.nst=%s' % _bucket(i['nst'])]
+        if obs[0] == 'crash':
+            return out + ['crash=' + obs[1]]
+        nch = len(obs[3]) - 1
+        out.append('route.n_chunks=%s' % ('<=20' if nch <= 20 else '21-40' if nch <= 40 else '41+'))
+        out.append('route.draws_differ=%s' % (len(obs[4]) > 1))
+        out.append('route.returned=%s' % _bucket(max(len(r) for r in obs[4])))
+        out.append('route.all_spikes_returned=%s' % (max(len(r) for r in obs[4]) == len(obs[1])))
+        return out
     out = ['kind=' + k, 'cfg=%s' % '/'.join(str(x) for x in CFGS[i.get('cfg', 0)])]
     if obs[0] == 'crash':
         out.append('crash=' + obs[1])
@@ -282,6 +359,8 @@ def dist(case, obs):
 
 def size(case):
     i = case['inp']
+    if case['kind'] == 'route':
+        return 1000 + i['nspk'] + i['nst']
     return 3 * len(i.get('times', [])) + 2 * len(i['grid']) + len(i.get('req', [])) + len(i.get('sub') or []) + \
         (1 if i.get('sub') is not None else 0) + (1 if i.get('sc') else 0) + min(i['k'], 20)
 
@@ -293,7 +372,14 @@ def shrink(case):
         j = dict(i)
         j.update(kw)
         return {'kind': k, 'inp': j}
-    if i.get('cfg', 0) != 0 and not (any(t < 0 for t in i.get('times', [])) and False):
+    if k == 'route':
+        for nspk in sorted({i['nspk'] // 2, i['nspk'] - 1}):
+            if 1 <= nspk < i['nspk']:
+                yield mk(nspk=nspk)
+        if i['nst'] > 1:
+            yield mk(nst=i['nst'] - 1)
+        return
+    if i.get('cfg', 0) != 0:
         yield mk(cfg=0)
     g = i['grid']
     if k == 'select':
@@ -331,6 +417,13 @@ def shrink(case):
 
 def repro(case):
     k, i = case['kind'], case['inp']
+    if k == 'route':
+        return ("import sys; sys.path[:0] = ['/verif/harness', '/repo']\n"
+                "from vt import npshim; npshim.setup_process()\n"
+                "from vt.props import c17\n"
+                "# builds the dataset of this seed, loads it with TemplateModel, calls save_spikes_subset_waveforms\n"
+                "# and returns (spike_samples, spike_templates, traces.chunk_bounds, saved spike ids per NumPy seed)\n"
+                "print(c17.run_case(%r))\n" % (case,))
     pre = ("import sys; sys.path[:0] = ['/verif/harness', '/repo']\n"
            "from vt import npshim; npshim.setup_process()\n"
            "import numpy as np\nfrom phylib.io.array import SpikeSelector, _spikes_per_cluster\n")
